@@ -96,6 +96,8 @@ class NameStream(Stream):
                     ren = [[chain[0], chain[1]], [chain[1], chain[0]]]      # a swap
             qs = sorted({(b if m is None else f"{b}_{m}") for b, m in pins + [r[1] for r in ren]} | {"zz"})
             out.append({"pins": pins, "ren": ren, "queries": qs, "via": rng.choice(["model", "structure"])})
+            if out[-1]["via"] == "structure" and rng.random() < 0.5:
+                out[-1]["lose"] = rng.randrange(len(pins))
         return out
 
     def run(self, d):
@@ -139,15 +141,39 @@ class NameStream(Stream):
                         if dict(sol.connections) != before[1] or (partner, Pin("a0")) not in sol.free_pins:
                             raise Expectation("a rejected put changed the link tables")
                 objs.append(((o.basename, o.mode_name), acc))
-            table = m.pin if d["via"] == "model" else {k: v[1] for k, v in Structure(model=m).pin.items()}
+            if d.get("lose") is not None and d["via"] == "structure":
+                # the placed structure's table is read, the structure then LOSES a pin (its neighbour is removed), and the
+                # table is read again: it must describe the pins the structure has now
+                st = Structure(model=m)
+                _first = dict(st.pin)
+                sol = lk.Solver()
+                sol.add_structure(st)
+                partner = Structure(model=lk.Waveguide(1.0))
+                sol.add_structure(partner)
+                lost = list(m.pin_dic)[d["lose"] % len(m.pin_dic)]
+                sol.connect(st, lost, partner, Pin("a0"))
+                sol.remove_structure(partner)
+                table = {k: v[1] for k, v in st.pin.items()}
+                lost_key = (lost.basename, lost.mode_name)
+                objs = []
+            else:
+                lost_key = None
+                table = m.pin if d["via"] == "model" else {k: v[1] for k, v in Structure(model=m).pin.items()}
             for q in d["queries"]:
                 p = table.get(q)
                 lookups.append(None if p is None else (p.basename, p.mode_name))
         except Exception:
             ok = False
+        pins_lit, ren_lit = d["pins"], d["ren"]
+        if ok and locals().get("lost_key") is not None:
+            # what is left after the renaming and the loss, as a plain pin list
+            rmap = {tuple(a): tuple(b) for a, b in d["ren"]}
+            pins_lit = [list(rmap.get(tuple(p), tuple(p))) for p in d["pins"]]
+            pins_lit = [p for p in pins_lit if tuple(p) != lost_key]
+            ren_lit = []
         return ("{| nm_pins := %s; nm_ren := %s; nm_queries := %s; nm_ok := %s; nm_lookups := %s; nm_objs := %s |}"
-                % (clist(pin_lit(p) for p in d["pins"]),
-                   clist("(%s, %s)" % (pin_lit(a), pin_lit(b)) for a, b in d["ren"]),
+                % (clist(pin_lit(p) for p in pins_lit),
+                   clist("(%s, %s)" % (pin_lit(a), pin_lit(b)) for a, b in ren_lit),
                    clist(cstr(q) for q in d["queries"]), "true" if ok else "false",
                    clist("None" if p is None else "Some " + pin_lit(p) for p in lookups),
                    clist("(%s, %s)" % (pin_lit(p), "true" if a else "false") for p, a in objs)))
